@@ -161,7 +161,10 @@ fn tensor_manual(req: &Value) -> Value {
     let dir = tmpdir();
     let path = dir.join("store.wal");
     let batched = req["batched"].as_u64();
-    let cfg = || WalConfig { sync_mode: batched.map_or(SyncMode::Manual, |n| SyncMode::Batched { max_entries: n as usize }), ..WalConfig::default() };
+    // `rotate_at_second`: a size limit that the second record exceeds (the model uses 15 bytes with 10-byte records)
+    let limit = if req["rotate_at_second"].as_bool().unwrap_or(false) { Some(20u64) } else { None };
+    let cfg = || { let mut c = WalConfig { sync_mode: batched.map_or(SyncMode::Manual, |n| SyncMode::Batched { max_entries: n as usize }), ..WalConfig::default() };
+        if let Some(l) = limit { c.max_size_bytes = l; c.auto_rotate = true; } c };
     let mut wal = TensorWal::open(&path, cfg()).unwrap();
     let mut errs = vec![];
     for s in req["steps"].as_array().into_iter().flatten() {
@@ -277,6 +280,28 @@ double_crash!(tensor_double, |p: &std::path::Path| TensorWal::open(p, WalConfig:
 pub fn handle(op: &str, req: &Value) -> Option<Value> {
     Some(match op {
         "durable_op" => durable_op(req),
+        "durable_rotation" => {
+            // acknowledged puts across a log rotation (no checkpoint), then recovery from the log alone
+            use tensor_store::{TensorData, TensorStore, TensorValue, ScalarValue};
+            let dir = tmpdir();
+            let path = dir.join("store.wal");
+            let cfg = WalConfig { max_size_bytes: req["max_size"].as_u64().unwrap_or(300), auto_rotate: true, ..WalConfig::default() };
+            let n = req["puts"].as_u64().unwrap_or(10);
+            let mut acked = vec![];
+            {
+                let store = match TensorStore::open_durable(&path, cfg.clone()) { Ok(s) => s, Err(e) => return Some(json!({"error": e.to_string()})) };
+                for i in 0..n {
+                    let mut d = TensorData::new();
+                    d.set("v", TensorValue::Scalar(ScalarValue::Int(i as i64)));
+                    if store.put_durable(format!("key{i}"), d).is_ok() { acked.push(i); }
+                }
+            }
+            let rotated: Vec<String> = std::fs::read_dir(&dir).map(|r| r.filter_map(|e| e.ok()).map(|e| format!("{}:{}", e.file_name().to_string_lossy(), e.metadata().map(|m| m.len()).unwrap_or(0))).collect()).unwrap_or_default();
+            let rec = TensorStore::recover(&path, &cfg, None);
+            let present: Vec<u64> = match &rec { Ok(s) => (0..n).filter(|i| s.get(&format!("key{i}")).is_ok()).collect(), Err(_) => vec![] };
+            let _ = std::fs::remove_dir_all(&dir);
+            json!({"acknowledged": acked, "recovered": present, "files": rotated, "recover_error": rec.err().map(|e| e.to_string()), "violates": present != acked})
+        },
         "wal_double" => match req["wal"].as_str().unwrap_or("") {
             "raft-double" => raft_double(req),
             "tx-double" => tx_double(req),
